@@ -222,6 +222,8 @@ pub fn run(report: &Report, thorough: bool) -> Evidence {
             o.english = english;
             o.smart = smart;
             o.psugg = psugg;
+            // the smart-quote-off walks build their Config with the setters in reverse order
+            o.reversed_setters = !smart;
             crate::drv::clear_user_files(&o);
             Ctx::new(&o).expect("ctx")
         };
@@ -335,6 +337,7 @@ pub fn run(report: &Report, thorough: bool) -> Evidence {
             o.ansi = ansi;
             o.english = english;
             o.kar = kar;
+            o.reversed_setters = kar;
             Ctx::new(&o).expect("ctx")
         };
         let typed = AtomicU64::new(0);
@@ -343,7 +346,7 @@ pub fn run(report: &Report, thorough: bool) -> Evidence {
             64,
             |w| {
                 let xdg = scratch_xdg(&format!("c16f-{}", w));
-                vec![(mk(&xdg, true, true, false), mk(&xdg, false, false, false)), (mk(&xdg, true, false, true), mk(&xdg, false, false, true))]
+                vec![(mk(&xdg, true, true, false), mk(&xdg, false, false, false)), (mk(&xdg, true, true, true), mk(&xdg, false, false, true))]
             },
             |ctxs, idx| {
                 let word = &words[idx];
@@ -429,6 +432,34 @@ pub fn run(report: &Report, thorough: bool) -> Evidence {
                                     v = v.feat("pre", crate::bn::esc(pre));
                                     report.add(v);
                                 }
+                            }
+                        }
+                    }
+                }
+            }
+            // ... and in the middle of a real word (typed, not restored, so the shown list exists):
+            // keys without a character re-show the current list, which must still be Bijoy
+            for fsugg in [false, true] {
+                let mut o = Opts::fixed(&probhat(), &real_db(), &scratch_xdg("c16fk2"));
+                o.ansi = true;
+                o.fsugg = fsugg;
+                o.english = true;
+                let mut ctx = Ctx::new(&o).expect("ctx");
+                for k in crate::keys::KEYS {
+                    for m in [0u8, 2] {
+                        let _ = ctx.apply(&Ev::Finish);
+                        let mut evs = vec![Ev::ch('a'), Ev::ch('m'), Ev::ch('i')];
+                        for e in &evs {
+                            let _ = ctx.apply(e);
+                        }
+                        let ev = Ev::Key { code: k.code, m, sel: 0 };
+                        evs.push(ev.clone());
+                        keyp += 1;
+                        match ctx.apply(&ev) {
+                            Ok(Out::Sugg(r)) => chk.readout(&ctx.opts, &evs, &r),
+                            Ok(_) => {}
+                            Err(f) => {
+                                report.add(fail_violation("C16", &f, &ctx.opts, &evs));
                             }
                         }
                     }
